@@ -1609,7 +1609,7 @@ def check_cis_trans(chk, fi: FuncInfo, fold, c: Dict[str, Any]) -> None:
     if len(params) != 2:
         raise NotReadable("detect_cis_trans does not take two residues")
     ri, rj = params
-    paths = SX.Executor(rewrite=idioms).run(fi.node.body)
+    paths = SX.Executor(rewrite=idioms, helpers=new_helpers(repo, fi)).run(fi.node.body)
     rets = [p for p in paths if p.exit in ("return", "fall")]
     letters_ret = {}
     stored = 0
